@@ -42,7 +42,7 @@ def main():
         t = sh("go test -vet=off -count=1 ./internal/... 2>&1 | tail -15", cwd=SCR)
         print("tests:", "ok" if "FAIL" not in t.stdout else "FAIL\n" + t.stdout)
     for prop in props.split(","):
-        r = subprocess.run(["/verif/bin/mysyncsa", "check", prop], capture_output=True, text=True,
+        r = subprocess.run(["timeout", "300", "/verif/bin/mysyncsa", "check", prop], capture_output=True, text=True, errors="replace",
                            env=dict(ENV, MYSYNC_REPO=SCR, VERIF_DIR="/tmp/mysync-mut-verif"))
         fired = sorted(set(re.findall(r"^(?:VIOLATION|UNDECIDED|ANCHOR-UNRESOLVED|VACUOUS) (\S+)", r.stdout, re.M)))
         print(f"{prop}: exit={r.returncode} fired={fired}")
